@@ -6,7 +6,7 @@ CONFIG = {
     "required_theorems": [
         "one_executor", "report_honest", "idle_after_failure", "shutdown_never_solicits",
         "terminate_only_when_safe", "client_trace_ok",
-        "until_none_nothing_running", "shutdown_keeps_synchronizing", "channel_bounded",
+        "until_nil_means_idle", "until_none_nothing_running", "shutdown_keeps_synchronizing", "channel_bounded",
     ],
     "harnesses": [
         {"cmd": "client", "cases_quick": 400, "cases_thorough": 12000, "shards_quick": 8, "shards_thorough": 32, "race": True},
